@@ -1020,7 +1020,7 @@ def student_inputs(draw, case):
         if chance(draw, 40) and len(vals) > 1:
             vals = vals[:-1]
         else:
-            vals = vals + [draw(s.good) if chance(draw, 50) else draw(junk)]
+            vals = vals + [draw(slots[-1].good) if chance(draw, 50) else draw(junk)]
     elif mode >= 4 and chance(draw, 20):
         vals = list(draw(st.permutations(vals)))
     return vals
